@@ -448,6 +448,26 @@ def gen_branch_pairs(g: Gen, c: Contract):
     return {'scfg': scfg, 'immdoms': imm, 'postimmdoms': post}
 
 
+def gen_wblock(g: Gen, c: Contract):
+    import ast as _ast
+    from numba_scfg.core.datastructures.ast_transforms import WritableASTBlock
+    r = g.rng
+    mk = [lambda: _ast.Pass(), lambda: _ast.Return(value=None), lambda: _ast.Break(), lambda: _ast.Continue(),
+          lambda: _ast.Expr(value=_ast.Constant(value=1)), lambda: _ast.Assign(targets=[_ast.Name(id='x', ctx=_ast.Store())], value=_ast.Constant(value=0))]
+    blk = WritableASTBlock(str(r.randint(0, 9)), [r.choice(mk)() for _ in range(r.randint(0, 3))], [str(r.randint(0, 9)) for _ in range(r.randint(0, 2))])
+    args = {'self': blk}
+    for n, t in c.params.items():
+        if n == 'self':
+            continue
+        if t == 'pyclass':
+            args[n] = r.choice([_ast.Return, _ast.Break, _ast.Continue, _ast.Pass, _ast.stmt, _ast.expr])
+        elif t == 'tuple[int]':
+            args[n] = tuple(r.randint(0, 12) for _ in range(r.randint(0, 3)))
+        else:
+            args[n] = r.randint(0, 12)
+    return args
+
+
 def gen_region_field(g: Gen, c: Contract):
     r = g.rng
     blk = g.bb.RegionBlock(name=g.name(), _jump_targets=tuple(g.names(0, 2)), backedges=(), kind=r.choice(['loop', 'branch', 'meta']),
@@ -520,7 +540,7 @@ def gen_scfg_only(g: Gen, c: Contract):
     return {'scfg': g.scfg(with_be=0.15, ext=0.4)}
 
 
-GENERATORS = {'branch_pairs': gen_branch_pairs, 'extract_region': gen_extract_region, 'region_field': gen_region_field, 'iter_scfg': gen_iter_scfg, 'sync_exiting': gen_sync_exiting, 'update_exiting': gen_update_exiting, 'head_blocks': gen_head_blocks, 'branch_regions': gen_branch_regions, 'view': gen_view, 'scfg_only': gen_scfg_only, 'dom_tables': gen_dom_tables, 'stream': gen_stream, 'flowinfo': gen_flowinfo, 'block_bcmap': gen_block_bcmap, 'namegen': gen_namegen, 'insert_ctrl': gen_insert_ctrl, 'tails_exits': gen_tails_exits, 'graph_and_pair': gen_graph_and_pair, 'graph_and_subset': gen_graph_and_subset, 'insert': gen_insert, 'branch_replace': gen_branch_replace}
+GENERATORS = {'wblock': gen_wblock, 'branch_pairs': gen_branch_pairs, 'extract_region': gen_extract_region, 'region_field': gen_region_field, 'iter_scfg': gen_iter_scfg, 'sync_exiting': gen_sync_exiting, 'update_exiting': gen_update_exiting, 'head_blocks': gen_head_blocks, 'branch_regions': gen_branch_regions, 'view': gen_view, 'scfg_only': gen_scfg_only, 'dom_tables': gen_dom_tables, 'stream': gen_stream, 'flowinfo': gen_flowinfo, 'block_bcmap': gen_block_bcmap, 'namegen': gen_namegen, 'insert_ctrl': gen_insert_ctrl, 'tails_exits': gen_tails_exits, 'graph_and_pair': gen_graph_and_pair, 'graph_and_subset': gen_graph_and_subset, 'insert': gen_insert, 'branch_replace': gen_branch_replace}
 
 
 def gen_args(g: Gen, c: Contract):
@@ -559,6 +579,10 @@ def snapshot(v, top=True):
         return {k: snapshot(x, False) for k, x in v.items()}
     if type(v).__name__ in ('NameGenerator', 'FlowInfo'):
         return copy.deepcopy(v)
+    if type(v).__name__ == 'WritableASTBlock':
+        c = copy.copy(v)          # same ast node objects (identity is what `isa` looks at), own lists
+        c.instructions, c.jump_targets = list(v.instructions), list(v.jump_targets)
+        return c
     return v
 
 
@@ -584,6 +608,9 @@ def describe(v):
         return d
     if type(v).__name__ == 'ConcealedRegionView':
         return {'ConcealedRegionView': describe(v.scfg)}
+    if type(v).__name__ == 'WritableASTBlock':
+        return {'WritableASTBlock': {'name': v.name, 'instructions': [type(i).__name__ for i in v.instructions],
+                                     'jump_targets': list(v.jump_targets)}}
     if isinstance(v, (list, tuple)):
         return [describe(x) for x in v]
     if isinstance(v, (set, frozenset)):
@@ -644,7 +671,13 @@ def rebuild(d, g: Gen = None):
     if isinstance(d, dict) and 'set' in d:
         return set(rebuild(x) for x in d['set'])
     if isinstance(d, dict) and 'type' in d:
-        return getattr(bb, d['type'])
+        import ast as _ast
+        return getattr(bb, d['type']) if hasattr(bb, d['type']) else getattr(_ast, d['type'])
+    if isinstance(d, dict) and 'WritableASTBlock' in d:
+        import ast as _ast
+        from numba_scfg.core.datastructures.ast_transforms import WritableASTBlock
+        w = d['WritableASTBlock']
+        return WritableASTBlock(w['name'], [getattr(_ast, n)() for n in w['instructions']], list(w['jump_targets']))
     if isinstance(d, list):
         return [rebuild(x) for x in d]
     return d
@@ -731,7 +764,13 @@ def check_case(c: Contract, fn, args, ns=None, ignore_known=False):
         except Exception:
             allowed[exc] = False
     try:
-        res = fn(**args)
+        import inspect as _insp
+        va = [n for n, prm in _insp.signature(fn).parameters.items() if prm.kind == prm.VAR_POSITIONAL]
+        if va:
+            fixed = [n for n, prm in _insp.signature(fn).parameters.items() if prm.kind == prm.POSITIONAL_OR_KEYWORD]
+            res = fn(*[args[n] for n in fixed], *args[va[0]])
+        else:
+            res = fn(**args)
         if c.yields:
             items = list(res)
             if c.yield_check:
@@ -771,6 +810,9 @@ def check_case(c: Contract, fn, args, ns=None, ignore_known=False):
     # frame: parameters not listed in `modifies` keep their value
     for n in c.params:
         if any(m == n or m.startswith(n + '.') for m in c.modifies):
+            if type(args[n]).__name__ == 'WritableASTBlock' and n + '.instructions' not in c.modifies and n not in c.modifies:
+                if len(args[n].instructions) != len(pre[n].instructions) or any(x is not y for x, y in zip(args[n].instructions, pre[n].instructions)):
+                    return Outcome('fail', {'clause': 'frame[%s.instructions]' % n})
             if type(args[n]).__name__ == 'SCFG':
                 if 'self.name_gen.kinds' not in c.modifies and n == 'self' and args[n].name_gen.kinds != pre[n].name_gen.kinds:
                     return Outcome('fail', {'clause': 'frame[%s.name_gen.kinds]' % n})
@@ -780,6 +822,14 @@ def check_case(c: Contract, fn, args, ns=None, ignore_known=False):
         try:
             if isinstance(pre[n], TotalView):
                 same = pre[n] == args[n]
+                if not same:
+                    return Outcome('fail', {'clause': 'frame[%s]' % n})
+                continue
+            if type(args[n]).__name__ == 'WritableASTBlock':
+                # no __eq__: compared field by field (the same node objects in the same order)
+                a_, b_ = args[n], pre[n]
+                same = a_.name == b_.name and a_.jump_targets == b_.jump_targets and len(a_.instructions) == len(b_.instructions) \
+                    and all(x is y for x, y in zip(a_.instructions, b_.instructions))
                 if not same:
                     return Outcome('fail', {'clause': 'frame[%s]' % n})
                 continue
